@@ -9,12 +9,21 @@ CHECKS = {
  "C01": ("proptest-generated application trees and requests; differential against a reference segment matcher over the flattened route table (four readings of the preference rule), plus metamorphic order-independence (same tree built in shuffled registration order)",
          "Exploration: tens of thousands of generated route trees (colliding static names, params, mounts, split method sets) each probed by up to 25 adversarial requests, built twice in different registration orders through the real public API and dispatched through the real parser, router and serializer. Right level: the property quantifies over configurations × inputs with a cheap exact oracle.",
          "the reference matcher and its four readings of 'preferred at each position'; refusals at build time are not applications; only rt_tokio; ≤2 params per route (documented limit)", "DESIGN.md §7 C01"),
+ "C02": ("proptest-generated well-formed requests and single-mutation malformed variants, offered as the first read to the real Request::read; differential against an independent strict HTTP/1.1 request parser (second opinion: httparse), plus a totality monitor (no panic, no accessor panic, no read after a complete request)",
+         "Exploration of inputs: 150 000 (quick) byte strings per run, half well-formed over the full header/case/body space, half one mutation away. Right level: the parser is a pure function of bytes with a cheap independent oracle; the defects are corner cases of the grammar.",
+         "the reference parser's classification into must-accept / must-refuse / either (soft) classes as documented in DESIGN.md §7 C02; heads beyond the 1 KiB buffer may be refused", "DESIGN.md §7 C02"),
  "C03": ("proptest-generated histories of public Response operations (stateful: op vector + interpreter) executed in a real handler; model-based oracle (history → expected header map/body) + independent HTTP response parser + capacity monitor (hook H3, declared-size accessor)",
          "Exploration of operation histories (0–40 operations, 10 % of 250–400) × all statuses × GET/HEAD through the real router and serializer. Right level: the defects of this property live in histories (remove→set, >255 sets) that examples do not reach; a model of the header map is cheap and exact.",
          "values without CR/LF/NUL; framing headers never set by hand; 1xx/304 only self-consistency; frozen clock via hook H4; H3 turns the silent overrun into a panic (with hooks off it is undefined behaviour)", "DESIGN.md §7 C03"),
  "C04": ("proptest-generated application trees with tracing fangs (real tuple Fangs impls: Fang wrappers, FangActions, mixes, early-answering) and requests; oracle = onion trace computed from the configuration tree, compared as an exact event sequence",
          "Exploration of configurations × requests: tens of thousands of nested applications with 0–8 fangs each and local fangs, each probed by up to 20 requests (hits, misses inside/outside mounts, mount paths, all methods, early markers). Right level: order/scope failures depend on tree shapes (compression, method trees) that only generated configurations reach.",
          "mount prefixes exclusive as the quantifier says (by construction); which handler is hit comes from C01's reference matcher; requests touching a node that the router's single-child compression merged across a mount point are attributed to the recorded known finding (classified from the configuration only)", "DESIGN.md §7 C04"),
+ "C05": ("proptest-generated request sequences on one connection against an echo application; metamorphic oracle: k-th response = response of the same request alone on a fresh connection (frozen clock), through the re-stated session loop over a scripted reader and, for a share of cases, the real Session::manage over a socketpair",
+         "Exploration of histories (1–6 requests, bodies around the buffer size, NUL bytes, context-setting fang, Connection: close). Right level: leakage between requests needs sequences whose earlier elements leave state behind; the metamorphic oracle is exact because the echo handlers reflect everything observable.",
+         "heads below 1 KiB; socketpair instead of the kernel's TCP stack; the in-memory loop re-states the six-line session loop (the real one is exercised on the socketpair share)", "DESIGN.md §7 C05"),
+ "C06": ("proptest-generated request sequences × segmentations of their concatenated bytes; metamorphic oracle: response stream = that of the canonical segmentation; scripted AsyncRead and FIONREAD-paced socketpair through the real Session::manage",
+         "Exploration of schedules of the byte stream (cut points biased to grammar borders and buffer borders, coalesced request borders). Right level: the variable the property quantifies over is the segmentation, which the harness owns completely.",
+         "heads below 1 KiB; deviations are classified by the segmentation alone (coalesced / head-split / body-or-border); coalesced requests are a recorded known finding", "DESIGN.md §7 C06"),
  "C14": ("proptest-generated CORS policies × application trees × simple/preflight requests; oracle = reference CORS model derived from the statement, fed with the policy and the flattened route table",
          "Exploration of policies × configurations × requests through the real CORS fang, automatic OPTIONS handlers, router and serializer. Right level: the property fails through interactions of registration shape (methods split over items/mounts) with preflights, which need generated configurations.",
          "policy on the root application; HEAD/OPTIONS as requested method accept either outcome; Vary unchecked", "DESIGN.md §7 C14"),
